@@ -275,6 +275,61 @@ def run_settings_alias(chk, F):
     chk.expect_count('E10-settings', 'uses of the source settings pointer in copy constructors', n, 4)
 
 
+def run_settings_forwarding(chk, F):
+    """E10b: a copy made with new settings rebinds *every* part to them. On the instantiated option grid: a
+    constructor `C(const C& source, Column_settings* s, ...)` initialises each member and base whose own class has such
+    a constructor from the source's part *and passes s on*; the one-argument copy constructor of those classes means
+    "keep the source's settings" (default argument nullptr), so an omitted argument leaves that part allocating in
+    the source's pool and computing with the source's field operators."""
+    import re
+    fns = [f for f in F.functions if f.get('unit') == 'mx_cls' and f.get('inst') == 1 and
+           f.get('kind') in ('ctor', 'copy_ctor') and len(f.get('params', [])) >= 2]
+
+    def is_settings_copy(f):
+        ps = f['params']
+        own = f['qual'].rsplit('::', 1)[0]
+        t0 = (ps[0].get('t') or '')
+        return t0.startswith('const ') and t0.rstrip().endswith('&') and 'Column_settings' in (ps[1].get('t') or '') \
+            and '*' in (ps[1].get('t') or '')
+    sc = [f for f in fns if is_settings_copy(f)]
+    aware = {f['qual'].rsplit('::', 1)[0] for f in sc}          # classes (with template arguments) that can be rebound
+    aware_names = {a.split('<')[0] for a in aware}
+    n = 0
+    seen = set()
+    for f in sc:
+        cls = f['qual'].rsplit('::', 1)[0]
+        cname = f.get('clsname')
+        src, st = f['params'][0]['n'], f['params'][1]['n']
+        for ini in f.get('inits', []) or []:
+            init = ini.get('init')
+            if init is None:
+                continue
+            target = ini.get('member') or ini.get('base') or ''
+            ct = (init.get('ct') or init.get('ctor') or '')
+            tname = ct.split('<')[0]
+            if tname not in aware_names:
+                continue
+            args = init.get('c') or []
+            if not args:
+                continue
+            first = ir.show(args[0])
+            if not re.search(r'(?<!\w)%s(?!\w)' % re.escape(src), first):
+                continue
+            key = (cname, target if isinstance(target, str) else str(target))
+            n += 1
+            passes = any(ir.contains(a, lambda y: y.get('k') == 'DeclRefExpr' and y.get('n') == st) for a in args[1:])
+            if key in seen:
+                continue
+            seen.add(key)
+            chk.ob('E10-settings-forward', '%s(const %s&, Column_settings*): `%s` is copied with the new settings'
+                   % (cname, cname, key[1]), '%s:%s' % (rel(f['file']), ini.get('l') or f['line']), passes,
+                   '' if passes else 'initialised as %s without `%s`: the one-argument copy keeps the source\'s '
+                   'settings (entry pool, field operators), the copy is not independent of the source' %
+                   (ir.show(init)[:120], st), key='E10|%s|%s|settings-forward' % (cname, key[1]))
+    chk.count('E10b parts copied by settings-aware constructors', n)
+    chk.expect_count('E10-settings-forward', 'parts copied by settings-aware constructors', n, 8)
+
+
 def _live_walk(n):
     """pre-order walk that only enters the live arm of an evaluated `if constexpr`"""
     if n is None:
@@ -419,6 +474,72 @@ def run_self_referential(chk, F):
     chk.expect_count('E1d-self-referential', 'members holding iterators into a sibling container', n_fields, 2)
 
 
+def run_moved_from_cache(chk, F):
+    """E1b-cache: "a moved-from object is empty and usable again": a cache member (tables/c15.json, kind `cache`) of
+    the source is left empty by a move. Moving the container out (`f = std::move(src.f)`, `std::exchange`) or clearing
+    it does that; *swapping* it with the target's does it only if the target's cache was empty - true in a move
+    constructor, not in a move assignment unless the target's cache is cleared first. Decided on the statement
+    sequence of each move assignment with its delegates on `*this` inlined at their call (the bodies are straight
+    line code; a swap inside a branch counts)."""
+    import re
+    n = 0
+    for key, (kind, _why) in TABLE['e1_field_exempt'].items():
+        if kind != 'cache':
+            continue
+        cname, fld = key.split('::')
+        fns = [f for f in F.functions if f.get('clsname') == cname and f.get('inst') in (0, 2) and
+               f.get('body') is not None and f.get('unit') not in ('mx_inst', 'mx_cls')]
+        by = {}
+        for f in fns:
+            by.setdefault(f['name'], []).append(f)
+        for ma in [f for f in fns if f.get('kind') == 'move_assign']:
+            src = ma['params'][0]['n']
+            events = []
+
+            def scan(f, srcname, depth):
+                for x in ir.walk(f['body'], False):
+                    t = ir.show(x).replace(' ', '')
+                    if ir.is_call(x):
+                        nm = ir.call_name(x)
+                        args = [ir.show(a).replace(' ', '') for a in ir.call_args(x)]
+                        recv = ir.show(ir.call_receiver(x)).replace(' ', '') if ir.call_receiver(x) is not None else ''
+                        if nm == 'clear' and recv in (fld, 'this->' + fld):
+                            events.append(('CLEAR', x))
+                        elif nm == 'swap' and ((recv in (fld, 'this->' + fld) and args == [srcname + '.' + fld]) or
+                                               sorted(args) == sorted([fld, srcname + '.' + fld])):
+                            events.append(('SWAP', x))
+                        elif ir.is_this_call(x) and nm in by and depth > 0 and args[:1] == [srcname]:
+                            for g in by[nm]:
+                                if g.get('params'):
+                                    scan(g, g['params'][0]['n'], depth - 1)
+                    if x.get('k') in ('BinaryOperator', 'CXXOperatorCallExpr') and x.get('op') == '=':
+                        cs = [ir.show(c).replace(' ', '') for c in (x.get('c') or [])[-2:]]
+                        if len(cs) == 2 and cs[0] in (fld, 'this->' + fld):
+                            if re.search(r'(move|exchange)\(%s\.%s' % (re.escape(srcname), re.escape(fld)), cs[1]):
+                                events.append(('MOVE', x))
+                            elif cs[1] in ('{}', fld + '()'):
+                                events.append(('CLEAR', x))
+            scan(ma, src, 2)
+            n += 1
+            bad = None
+            cleared = False
+            for ev, node in events:
+                if ev == 'CLEAR':
+                    cleared = True
+                elif ev == 'SWAP' and not cleared and bad is None:
+                    bad = node
+            touched = any(ev in ('SWAP', 'MOVE') for ev, _ in events)
+            chk.ob('E1b-cache', '%s move assignment leaves the source\'s `%s` empty' % (cname, fld),
+                   '%s:%d' % (rel(ma['file']), ma['line']), bad is None and touched,
+                   '' if (bad is None and touched) else (
+                       '`%s` (line %s) exchanges the cache with the target\'s, which was not cleared: the moved-from '
+                       'object keeps the target\'s old cache (handles of nodes that were just deleted)'
+                       % (ir.show(bad), bad.get('l')) if bad is not None else
+                       'the cache of the source is neither moved out, exchanged nor cleared'),
+                   key='E1b|%s::move_assign|%s|source-empty' % (cname, fld))
+    chk.expect_count('E1b-cache', 'move assignments of classes with a cache member', n, 1)
+
+
 def run_nullness(chk, F):
     """E12: no operation dereferences, member-accesses or destroys a pointer that the class itself treats as nullable on
     a path on which it can be null (gsa/nullness.py). Covers every class of the two families except the general
@@ -486,6 +607,8 @@ def run(tier, replay=None):
     run_static_state(chk, F)
     run_nullness(chk, F)
     run_self_referential(chk, F)
+    run_moved_from_cache(chk, F)
+    run_settings_forwarding(chk, F)
     run_settings_alias(chk, F)
     # deserialisation rebuilds the dimension bound of the tree it creates (shared rule C01/R3b)
     from rules import c01, c03
